@@ -3,6 +3,7 @@ CONSTANTS
   ClampIndex = TRUE
   EmptySpanClamp = TRUE
   SkipReclip = TRUE
+  EmptySourceFix = TRUE
   Tol = 10
   MaxToks = 6
   MaxAnns = 2
